@@ -5,7 +5,7 @@
    ("st(un(phPS(x,b)))"), so a state IS a workflow: the set of commands that have been run
    (the order in which independent commands ran is irrelevant and is not part of the state).
    TLC explores every workflow of at most MaxCmds commands on every tiny world and checks
-   the cross-command invariants W1..W11 in every state.
+   the cross-command invariants W1..W12 in every state.
 
    World: one diploid sample, N sites on one chromosome (POS 10, 20, ...; site 2 is not an
    SNV), truth per site from {0|1, 1|0, 1|1}; error-free single-end reads, each a copy of one
@@ -158,6 +158,7 @@ InvW9 == W9(fs, All)
 InvW10 == W10(fs, All, TRUE)
 InvW10b == W10b(fs, All, TRUE)
 InvW11 == W11(fs, All)
+InvW12 == W12(fs, All)
 (* sanity of the model itself: every file's arguments exist, every list is consistent *)
 InvClosed == \A i \in DOMAIN fs : \A n \in DOMAIN fs[i].args : fs[i].args[n] \in DOMAIN fs
 
